@@ -11,6 +11,8 @@
 //	sweep   operand sweeps for every opcode over a 21-value boundary domain (all tuples for arity <= 2,
 //	        a 9-value domain for arity 3, all one- and two-position variations for arity >= 4)
 //	raw     every 1- and 2-byte string as unwrapped code
+//	frames  every frame shape: chains of <= 3 frames over the 4 call kinds, one optional sibling call, 10 actions
+//	codeid  code identity: 2-3 contracts that all jump in one transaction, layouts enumerated against each other
 //	wrap    state-changing tokens inside STATICCALL / reverting / failing / nested-reverting frames and at
 //	        the bottom of a self-recursion to the depth limit; stack-limit programs; loops
 package main
@@ -722,6 +724,7 @@ func main() {
 	phase("cfg", runCfg)
 	phase("wrappers", runWrappers)
 	phase("frames", runFrames)
+	phase("codeid", runCodeID)
 	phase("singles", runSingles)
 	phase("sweep", runSweep)
 	phase("create", runCreateTop)
@@ -806,7 +809,9 @@ func main() {
 	r.Add("kvm_runs_revert", atomic.LoadInt64(&nStatus[1]))
 	r.Add("kvm_runs_failure", atomic.LoadInt64(&nStatus[2]))
 	r.Set("rule", "E3: every token sequence of length <= seq_max_len over the listed alphabet (longest length: see seq_len3_alphabet / cap_reached), wrapped by a fixed prelude/postlude; "+
-		"every byte as single-opcode body; DUP/SWAP over 20 distinct words; operand sweeps per opcode (36B input, ample gas); every 1- and 2-byte raw code; raw strings as init code of a top-level creation; the wrapper programs. "+
+		"every byte as single-opcode body; DUP/SWAP over 20 distinct words; operand sweeps per opcode (36B input, ample gas); every 1- and 2-byte raw code; raw strings as init code of a top-level creation; the wrapper programs; every frame shape (chains of <= 3 frames over the 4 call kinds x one optional sibling call x 10 state-changing actions, see frame_shapes); "+
+		"the code-identity scenarios (2-3 contracts that all JUMP in one transaction, layouts enumerated so that at each jump-target offset the other program has a JUMPDEST / another opcode / PUSH data 0x5b / other PUSH data / "+
+		"its end nearby / its end far before / a truncated PUSH, jump before or after the call, 4 call kinds, same code at two addresses, self-call; own absolute model plus differential, see codeid_scenarios). "+
 		"Token sequences of length <= 2, single bodies and (thorough) length 3 and raw codes run under call data {empty,32B,36B} x gas {tiny,ample}; quick: length 3 under (36B, ample), raw codes under {(36B,ample),(empty,ample),(36B,tiny)}; thorough length 4 under (36B, ample). Everything under both instruction sets. "+
 		"evaluations = executions on KVM plus on the reference. A program is distinct by construction (unique code bytes) and counted non-trivial when, for at least one (input, gas, instruction set), "+
 		"KVM dispatched >= 1 instruction past the prelude AND no frame on either side ran out of gas or fetched an excluded opcode, so the differential oracle was applied.")
